@@ -2,7 +2,6 @@ package validator
 
 import (
 	"bytes"
-	"reflect"
 	"sort"
 	"strings"
 
@@ -175,9 +174,12 @@ func (v objectValidator) validateTypeRules(objectNode *schema.ObjectNode, value 
 }
 
 // keyMatchesType reports whether the key is accepted by the string type used as a
-// key shortcut. The type may be a reference or a list of alternatives (@k = @k2,
-// @k = @a | @b): the key is accepted when one of them accepts it. visiting holds
-// the names on the current path, a type list may name a type being resolved.
+// key shortcut: a string type without rules stands for the key equal to its
+// example, a string type with rules for the keys it accepts as a value. The type
+// may be a reference or a list of alternatives (@k = @k2, @k = @a | @b, the rules
+// "type": "@k2" and "or"): the key is accepted when one of them accepts it.
+// visiting holds the names on the current path, a type list may name a type being
+// resolved.
 func (v objectValidator) keyMatchesType(name string, value jbytes.Bytes, visiting map[string]struct{}) bool {
 	typ, ok := v.rootSchema.TypesList()[name]
 	if !ok {
@@ -185,10 +187,10 @@ func (v objectValidator) keyMatchesType(name string, value jbytes.Bytes, visitin
 	}
 	node := typ.Schema().RootNode()
 
-	if mixed, ok := node.(*schema.MixedValueNode); ok {
+	if names, ok := alternativeTypeNames(node); ok {
 		visiting[name] = struct{}{}
 		defer delete(visiting, name)
-		for _, tn := range mixed.GetTypes() {
+		for _, tn := range names {
 			if _, ok := visiting[tn]; ok {
 				continue
 			}
@@ -200,51 +202,39 @@ func (v objectValidator) keyMatchesType(name string, value jbytes.Bytes, visitin
 	}
 
 	if node.Type().String() != "string" {
+		if len(visiting) != 0 {
+			// An alternative of another kind ({or: ["integer", "string"]}) accepts no key.
+			return false
+		}
 		panic(errors.Format(errors.ErrInvalidKeyType, v.requiredKeysString()))
 	}
 
-	flag := false
-	inside := false
-	i := 0
-
-	node.ConstraintMap().EachSafe(func(_ constraint.Type, v constraint.Constraint) {
-		inside = true
-		if i == 0 {
-			flag = true
-		}
-		flag = flag && checkConstraint(v, value)
-		i++
-	})
-
-	if !inside {
-		if bytes.Equal(node.Value(), value) {
-			flag = true
-		}
+	if node.ConstraintMap().Len() == 0 {
+		return bytes.Equal(node.Value(), value)
 	}
-	return flag
+	return isValidLiteralValue(node, value)
 }
 
-func checkConstraint(constr constraint.Constraint, value jbytes.Bytes) (b bool) {
+// alternativeTypeNames returns the names of the types the node refers to, if it
+// is a reference or a list of alternatives.
+func alternativeTypeNames(node schema.Node) ([]string, bool) {
+	if mixed, ok := node.(*schema.MixedValueNode); ok {
+		return mixed.GetTypes(), true
+	}
+	if c := node.Constraint(constraint.TypesListConstraintType); c != nil {
+		return c.(*constraint.TypesList).Names(), true
+	}
+	return nil, false
+}
+
+// isValidLiteralValue reports whether the value satisfies all the rules of the node.
+func isValidLiteralValue(node schema.Node, value jbytes.Bytes) (b bool) {
 	defer func() {
 		if r := recover(); r != nil {
 			b = false
 		}
 	}()
 
-	switch ct := constr.(type) {
-	case *constraint.MinLength:
-		ct.Validate(value)
-		return true
-	case *constraint.MaxLength:
-		ct.Validate(value)
-		return true
-	case *constraint.Regex:
-		ct.Validate(value)
-		return true
-	case *constraint.Enum:
-		ct.Validate(value)
-		return true
-	default:
-		panic(errors.Format(errors.ErrUnknownRule, reflect.TypeOf(constr)))
-	}
+	ValidateLiteralValue(node, value)
+	return true
 }
